@@ -286,3 +286,54 @@ def normalise_nested(fnode, inner_names, outer_names, inner_fn="recurse"):
     for a, nm in zip(fnode.args.args, outer_names):
         a.arg = nm
     return fnode
+
+
+def inline_aliases(fnode):
+    """copy of a function in which a local that is bound exactly once, to a plain read (a name, an attribute chain, a subscript by a name / constant, `len(...)` of one),
+    is replaced by that read wherever it is read - provided the root of the read is a parameter, `self`, or itself bound once, and nothing in the function stores
+    into the root or rebinds it.  Naming a value before passing it on (`rng = self.rng`, `ntaxa = pgmat.ntaxa`, `chosen = sosoln.soln_decn[0]`) does not change what
+    is passed; rules use this view as a second reading when the first one reports something."""
+    import copy
+    fn = copy.deepcopy(fnode)
+
+    def plain(e):
+        if isinstance(e, ast.Name):
+            return e.id
+        if isinstance(e, ast.Attribute):
+            return plain(e.value)
+        if isinstance(e, ast.Subscript) and isinstance(e.slice, (ast.Constant, ast.Name)):
+            return plain(e.value)
+        if isinstance(e, ast.Call) and isinstance(e.func, ast.Name) and e.func.id == "len" and len(e.args) == 1 and not e.keywords:
+            return plain(e.args[0])
+        return None
+    params = {a.arg for a in fn.args.args + fn.args.kwonlyargs + fn.args.posonlyargs}
+    stores, touched = {}, set()
+    for n in ast.walk(fn):
+        if isinstance(n, ast.Name) and isinstance(n.ctx, (ast.Store, ast.Del)):
+            stores[n.id] = stores.get(n.id, 0) + 1
+        elif isinstance(n, (ast.Attribute, ast.Subscript)) and isinstance(n.ctx, (ast.Store, ast.Del)):
+            r = plain(n.value)
+            if r:
+                touched.add(r)
+    alias = {}
+    for st in ast.walk(fn):
+        if isinstance(st, ast.Assign) and len(st.targets) == 1 and isinstance(st.targets[0], ast.Name) and not isinstance(st.value, ast.Constant):
+            v, r = st.targets[0].id, plain(st.value)
+            if r is None or r == v or v in params or stores.get(v, 0) != 1 or r in touched:
+                continue
+            if not (r in params or r == "self" or stores.get(r, 0) == 1):
+                continue
+            if isinstance(st.value, ast.Subscript) and isinstance(st.value.slice, ast.Name) and stores.get(st.value.slice.id, 0) > 1:
+                continue
+            alias[v] = st.value
+    if not alias:
+        return None
+
+    class Sub(ast.NodeTransformer):
+        def visit_Name(self, n):
+            if isinstance(n.ctx, ast.Load) and n.id in alias:
+                return ast.copy_location(Sub().visit(copy.deepcopy(alias[n.id])), n)
+            return n
+    fn.body = [Sub().visit(st) for st in fn.body]
+    ast.fix_missing_locations(fn)
+    return fn
